@@ -73,6 +73,23 @@ func genC18(seed uint64, tier string) *Scenario {
 			b, _ := json.Marshal(cfg)
 			sc.TracerCfg = string(b)
 		case "accesslist":
+			// a prior list with storage keys under the sender, the recipient, a precompile and a
+			// bystander: the tracer leaves out the bare addresses of the first three, not their keys
+			for i := range sc.Execs[0].Txs {
+				tx := &sc.Execs[0].Txs[i]
+				if tx.To == "" || r.P(1, 3) {
+					continue
+				}
+				for _, a := range []string{tx.From, tx.To, hxu(uint64(1 + r.Intn(9))), contractAddr(r.Intn(3))} {
+					if r.P(2, 3) {
+						t := AccessTuple{Addr: a}
+						for k := 0; k < r.Intn(3); k++ {
+							t.Slots = append(t.Slots, genSlot(r))
+						}
+						tx.AL = append(tx.AL, t)
+					}
+				}
+			}
 		default:
 			sc.TracerCfg = pick(r, nativeTracerCfgs[sc.Tracer])
 		}
@@ -130,7 +147,8 @@ func sutInner(sc *Scenario, tx *Tx, buf *bytes.Buffer) (avm.EVMLogger, func() (s
 	case "accesslist":
 		ev := chainConfig(sc.Fork, sc.Block)
 		rules := ev.Rules(sutBlockCtx(sc).BlockNumber, isMerge(sc.Fork), sc.Block.Time)
-		t := alogger.NewAccessListTracer(nil, addr(tx.From), addr(tx.To), avm.ActivePrecompiles(rules))
+		// the transaction's own list is the prior list (the eth_createAccessList iteration)
+		t := alogger.NewAccessListTracer(accessList(tx.AL), addr(tx.From), addr(tx.To), avm.ActivePrecompiles(rules))
 		return t, func() (string, error) { b, err := json.Marshal(t.AccessList()); return string(b), err }
 	default:
 		var raw json.RawMessage
@@ -160,7 +178,7 @@ func refInner(sc *Scenario, tx *Tx, buf *bytes.Buffer) (evm.EVMLogger, func() (s
 	case "accesslist":
 		ev := chainConfig(sc.Fork, sc.Block)
 		rules := ev.Rules(refBlockCtx(sc).BlockNumber, isMerge(sc.Fork), sc.Block.Time)
-		t := elogger.NewAccessListTracer(nil, addr(tx.From), addr(tx.To), evm.ActivePrecompiles(rules))
+		t := elogger.NewAccessListTracer(accessList(tx.AL), addr(tx.From), addr(tx.To), evm.ActivePrecompiles(rules))
 		return t, func() (string, error) { b, err := json.Marshal(t.AccessList()); return string(b), err }
 	default:
 		var raw json.RawMessage
